@@ -888,4 +888,57 @@ theorem findVariant_nodup : ∀ (vs : List (Nat × List Nat)) (name : Nat) (tys 
       rcases h with h | h
       · exact absurd h.1.symm e
       · exact findVariant_nodup rest name tys hnd.2 h
+
+/-! ### rank certificate ⇒ every type is inhabited -/
+
+def RankOk (sig : Sig) (rank : Nat → Nat) : Prop := ∀ t, rankOkAt sig rank t = true
+
+theorem inhabitants_of (sig : Sig) : ∀ (tys : List Nat), (∀ ty ∈ tys, ∃ v, hasTy sig v ty = true) →
+    ∃ vs, hasTys sig vs tys = true
+  | [], _ => ⟨[], by simp [hasTys]⟩
+  | t :: ts, h => by
+    obtain ⟨v, hv⟩ := h t (by simp)
+    obtain ⟨vs, hvs⟩ := inhabitants_of sig ts (fun ty hty => h ty (by simp [hty]))
+    exact ⟨v :: vs, by simp [hasTys, hv, hvs]⟩
+
+theorem inhabited_of_rank (sig : Sig) (rank : Nat → Nat) (h : RankOk sig rank) : Inhabited' sig := by
+  have key : ∀ k t, rank t < k → ∃ v, hasTy sig v t = true := by
+    intro k
+    induction k with
+    | zero => intro t ht; omega
+    | succ k ih =>
+      intro t ht
+      have hr := h t
+      unfold rankOkAt at hr
+      cases hs : sig t with
+      | prim => exact ⟨.prim 0, by simp [hasTy, hs]⟩
+      | struct fs =>
+        simp only [hs, List.all_eq_true, decide_eq_true_eq] at hr
+        obtain ⟨vs, hvs⟩ := inhabitants_of sig (fs.map (·.2)) (by
+          intro ty hty
+          obtain ⟨f, hf, rfl⟩ := List.mem_map.mp hty
+          exact ih _ (by have := hr f hf; omega))
+        exact ⟨.con none vs, by simp [hasTy, ctorFields, hs, hvs]⟩
+      | enum cls vs =>
+        simp only [hs, List.any_eq_true] at hr
+        obtain ⟨v, _, hv⟩ := hr
+        cases hf : findVariant vs v.1 with
+        | none => simp [hf] at hv
+        | some tys =>
+          simp only [hf, List.all_eq_true, decide_eq_true_eq] at hv
+          obtain ⟨ws, hws⟩ := inhabitants_of sig tys (fun ty hty => ih _ (by have := hv ty hty; omega))
+          exact ⟨.con (some ⟨cls, v.1⟩) ws, by simp [hasTy, ctorFields, hs, hf, hws]⟩
+  exact fun t => key (rank t + 1) t (Nat.lt_succ_self _)
+
+theorem inhabited_of_rankCheck (defs : List Def) (rank : List Nat) (h : rankCheck defs rank = true) :
+    Inhabited' (sigOfTable defs) := by
+  apply inhabited_of_rank _ (fun t => rank.getD t 0)
+  intro t
+  by_cases ht : t < defs.length
+  · simp only [rankCheck, List.all_eq_true, List.mem_range] at h
+    exact h t ht
+  · have : sigOfTable defs t = .prim := by
+      simp [sigOfTable, List.getD, List.getElem?_eq_none (Nat.le_of_not_lt ht)]
+    simp [rankOkAt, this]
+
 end SamVerif.Useful
